@@ -346,7 +346,7 @@ def rule_frames_of_created_calls(ctx, rid, rr):
 
         def gsf(*a, _c=count):
             _c[0] += 1
-            return f"F#{_c[0]}"
+            return roles.frame_token(m, f"F#{_c[0]}")
         w.interp.stubs["get_stack_frame"] = Stub("get_stack_frame", gsf)
         w.interp.ext["inspect.signature"] = lambda fn_: Obj(None, {"bind": Stub("bind", lambda *a, **k: None)}, name="signature")
         w.interp.ext.setdefault("builtins.callable", lambda x_: True)
@@ -364,8 +364,21 @@ def rule_frames_of_created_calls(ctx, rid, rr):
         except AbsRaise as e:
             raise AnalysisError(f"abstract evaluation of Plan.{meth} raised {e.value!r}")
         new_calls = [n for n in w.g._nodes if n not in before and isinstance(n, Obj) and n.cls is not None and n.cls.name == "Call"]
-        frames = [n.attrs.get("stack_frame") for n in new_calls]
+        frames = [getattr(n.attrs.get("stack_frame"), "name", n.attrs.get("stack_frame")) for n in new_calls]
         ok = count[0] == 1 and bool(new_calls) and all(fr == "F#1" for fr in frames)
+        if ok:
+            # a second use of the same method from another caller (same line of a helper, another outer frame): its calls carry the
+            # second capture, not a chain remembered from the first
+            seen_ = list(w.g._nodes)
+            args2, kwargs2 = mk_args(w, x, y, Stub("user_fn", None))
+            try:
+                w.interp.call_func(f, None, args2, kwargs2, bound_self=w.plan)
+            except AbsRaise as e:
+                raise AnalysisError(f"abstract evaluation of Plan.{meth} raised {e.value!r}")
+            second = [n for n in w.g._nodes if n not in seen_ and isinstance(n, Obj) and n.cls is not None and n.cls.name == "Call"]
+            frames2 = [getattr(n.attrs.get("stack_frame"), "name", n.attrs.get("stack_frame")) for n in second]
+            ok = count[0] == 2 and bool(second) and all(fr == "F#2" for fr in frames2)
+            frames = frames + frames2
         ctx.ob(rid, f"Plan.{meth}/one-frame-for-all-created-calls", ok, loc(f),
                f"evaluated: the frame is captured once and all {len(new_calls)} calls created by plan.{meth}(...) carry it" if ok else
                f"evaluated plan.{meth}(...) on a structured argument: get_stack_frame was called {count[0]} time(s) and the created calls carry "
